@@ -395,6 +395,9 @@ func (ri *reflectInspector) recordArgReflected(val ssa.Value, visited map[ssa.Va
 		return ri.recordArgReflected(val.X, visited)
 	case *ssa.MakeInterface:
 		return ri.recordArgReflected(val.X, visited)
+	case *ssa.ChangeInterface:
+		// A value held in a non-empty interface and then passed as "any".
+		return ri.recordArgReflected(val.X, visited)
 	case *ssa.UnOp:
 		for _, ref := range *val.Referrers() {
 			if idx, ok := ref.(ssa.Value); ok {
